@@ -31,6 +31,16 @@ func runC17(p *load.Program, r *oblig.Report) {
 	c17SizeThreading(p, r)
 	c17StaleSize(p, r, "C17.R5 remaining size is threaded through error exits")
 	c17Deadline(p, r)
+	transportDeadline(p, r, "C17.R6 the operation's deadline bounds the wait for its response")
+	rawTokenReadFull(p, r, "C17.R8 the raw SASL answer is complete or an error")
+	// after a cut response the Reader resumes behind the last record it delivered (C02.R1, C02.R3)
+	shareRules(r, "C17", "C17.R9 the Reader resumes after the last delivered record", func(sub *oblig.Report) { c02Run(p, sub); c02Read(p, sub) })
+	// the Writer's retry after a cut response carries the same records again: every attempt encodes the batch
+	// through a fresh reader (C01.R5) and a failed attempt is retried or reported (C01.R3)
+	shareRules(r, "C17", "C17.R7 the Writer's retry on a new connection resends the whole batch", func(sub *oblig.Report) {
+		c01RequestIdentity(p, sub)
+		c01RetryLoop(p, sub)
+	})
 }
 
 // c17DontExpectEOF: every returned error that comes from d.err went through dontExpectEOF.
@@ -244,16 +254,43 @@ func c17Sticky(p *load.Program, r *oblig.Report) {
 			r.Lost(rule, "protocol.(*decoder)."+name)
 			continue
 		}
-		ok := false
+		// (the loop must leave when the frame is exhausted *or* a read has failed: after a failed read `remain` stops
+		// decreasing, so `d.remain > 0` alone is not enough — see the C20 finding fixed by 869fde5. Accepted: a call
+		// of a predicate that looks at both, such as d.done(), or separate tests of remain and err.)
+		remainT, errT := false, false
 		for _, b := range an.Blocks(fn) {
-			_, ci := an.IfCond(b)
+			iff, ci := an.IfCond(b)
+			if iff == nil {
+				continue
+			}
 			if ci != nil && ci.Op == token.GTR && strings.HasSuffix(argDesc(ci.X), ".remain") {
 				if k, isK := an.ConstInt(ci.Y); isK && k == 0 {
-					ok = true
+					remainT = true
 				}
 			}
+			if ci != nil && strings.HasSuffix(argDesc(ci.X), ".err") && an.IsNilConst(ci.Y) {
+				errT = true
+			}
+			c := an.CondOf(iff)
+			if u, isU := c.(*ssa.UnOp); isU && u.Op == token.NOT {
+				c = u.X
+			}
+			if call, isC := c.(*ssa.Call); isC && call.Call.StaticCallee() != nil {
+				looksRemain, looksErr := false, false
+				an.EachInstr(call.Call.StaticCallee(), func(i ssa.Instruction) {
+					if fa, isFA := i.(*ssa.FieldAddr); isFA {
+						switch an.FieldName(fa.X.Type(), fa.Field) {
+						case "remain":
+							looksRemain = true
+						case "err":
+							looksErr = true
+						}
+					}
+				})
+				remainT, errT = remainT || looksRemain, errT || looksErr
+			}
 		}
-		r.Check(ok, rule, "protocol.(*decoder)."+name+" stops iterating when nothing remains", p.Pos(fn.Pos()), "loop condition includes d.remain > 0", "not found")
+		r.Check(remainT && errT, rule, "protocol.(*decoder)."+name+" stops iterating when nothing remains or a read has failed", p.Pos(fn.Pos()), "loop condition includes !d.done() (remain == 0 || err != nil)", fmt.Sprintf("tests remain: %v, tests err: %v", remainT, errT))
 	}
 }
 
@@ -607,4 +644,44 @@ func calleeLabel(c *ssa.CallCommon) string {
 		return an.RefFuncName(f)
 	}
 	return "a callback"
+}
+
+// transportDeadline: the deadline of the caller's context bounds the whole exchange on a transport connection — the
+// write of the request as well as the wait for the response — so a request stuck on a connection the broker no
+// longer drains is abandoned in time (and is not delivered late, behind the retry the Writer sent elsewhere).
+func transportDeadline(p *load.Program, r *oblig.Report, rule string) {
+	fn := p.Func("", "(*conn).roundTrip")
+	if fn == nil {
+		r.Lost(rule, "kafka.(*conn).roundTrip")
+		return
+	}
+	whole, half := false, ""
+	an.EachInstr(fn, func(ins ssa.Instruction) {
+		c, ok := ins.(*ssa.Call)
+		if !ok || c.Call.StaticCallee() == nil {
+			return
+		}
+		sc := c.Call.StaticCallee()
+		if sc.Signature.Recv() == nil || !an.NamedIs(sc.Signature.Recv().Type(), protoPath, "Conn") {
+			return
+		}
+		arg := clean(an.Shape(c.Call.Args[len(c.Call.Args)-1]))
+		fromCtx := strings.Contains(arg, "Deadline()#0")
+		switch an.RefFuncName(sc) {
+		case "SetDeadline":
+			if fromCtx {
+				whole = true
+			}
+		case "SetReadDeadline", "SetWriteDeadline":
+			if fromCtx {
+				half = an.RefFuncName(sc)
+			}
+		}
+	})
+	found := "the context's deadline is not applied to the connection"
+	if half != "" {
+		found = "only " + half + " is given the context's deadline"
+	}
+	r.Check(whole, rule, "kafka.(*conn).roundTrip applies the context's deadline to the write and the read of the exchange", p.Pos(fn.Pos()),
+		"if deadline, ok := ctx.Deadline(); ok { pc.SetDeadline(deadline) }", found)
 }
